@@ -112,7 +112,7 @@ M = [
     ("c16-little", "C16", IO + "hlog.py", "stream = DataStream(data, byte_order='big', is_signed=False)", "stream = DataStream(data, byte_order='little', is_signed=False)", "caught"),
     # C17
     ("c17-no-sort", "C17", IO + "dump.py", "buffer_offsets = sorted(buffer_offsets)", "buffer_offsets = list(buffer_offsets)", "caught"),
-    ("c17-rfind", "C17", IO + "dump.py", "offset = data_bytes.find(start_bytes)", "offset = data_bytes.rfind(start_bytes)", "silent"),   # names are recognised at most once
+    ("c17-rfind", "C17", IO + "dump.py", "offset = data_bytes.find(start_bytes)", "offset = data_bytes.rfind(start_bytes)", "caught"),   # since dumps with a repeated buffer name are generated: its FIRST occurrence is the header
     # C18
     ("c18-upper-mod", "C18", P + "parse_user_data.py", "name = (self.creatorID.lower() + \"%04X\" % self.compID).lower()", "name = (self.creatorID.lower() + \"%04X\" % self.compID)", "caught"),
     ("c18-swap-sub-ver", "C18", P + "parse_user_data.py", "return cls.parseUDToJson(self.subType, self.version, mv)", "return cls.parseUDToJson(self.version, self.subType, mv)", "caught"),
